@@ -34,6 +34,7 @@ pub struct TraceOut {
     pub layout: String,
     pub nontrivial: bool,
     pub sample_log: String,
+    pub sendable: u64,
 }
 
 fn expected_counts(key: Option<usize>, mult: u64, staged: bool, tl: bool, built: &Built, lay: &Layout, out: &mut BTreeMap<usize, u64>, ns: &BTreeMap<usize, usize>) {
@@ -105,6 +106,45 @@ fn sub_layout(lay: &Layout, key: Option<usize>) -> Option<Layout> {
     }
 }
 
+/// the dispatcher under test: as built, or converted to its sendable form (dispatcher.rs
+/// `try_into_sendable`; only possible without thread-local systems — same plan, C12)
+enum AnyDisp {
+    D(Dispatcher<'static, 'static>),
+    S(SendDispatcher<'static>),
+}
+impl AnyDisp {
+    fn dispatch(&mut self, w: &World) {
+        match self {
+            AnyDisp::D(d) => d.dispatch(w),
+            AnyDisp::S(d) => d.dispatch(w),
+        }
+    }
+    fn dispatch_seq(&mut self, w: &World) {
+        match self {
+            AnyDisp::D(d) => d.dispatch_seq(w),
+            AnyDisp::S(d) => d.dispatch_seq(w),
+        }
+    }
+    #[cfg(feature = "parallel")]
+    fn dispatch_par(&mut self, w: &World) {
+        match self {
+            AnyDisp::D(d) => d.dispatch_par(w),
+            AnyDisp::S(d) => d.dispatch_par(w),
+        }
+    }
+    fn dispatch_thread_local(&mut self, w: &World) {
+        if let AnyDisp::D(d) = self {
+            d.dispatch_thread_local(w)
+        }
+    }
+    fn run_now(&mut self, w: &World) {
+        match self {
+            AnyDisp::D(d) => RunNow::run_now(d, w),
+            AnyDisp::S(d) => RunNow::run_now(d, w),
+        }
+    }
+}
+
 pub fn eval_case(ops: &[Op], drv: Option<&mut Drv>, pools: &[Pool], rng: &mut Rng, cfg: &TraceCfg) -> TraceOut {
     let mut out = TraceOut::default();
     let mut drv = drv;
@@ -126,6 +166,21 @@ pub fn eval_case(ops: &[Op], drv: Option<&mut Drv>, pools: &[Pool], rng: &mut Rn
     };
     out.layout = lay.show();
     out.nontrivial = lay.nontrivial();
+    let sendable = rng.chance(30) && lay.tl.is_empty();
+    let mut disp = if sendable {
+        match disp.try_into_sendable() {
+            Ok(s) => {
+                out.sendable = 1;
+                AnyDisp::S(s)
+            }
+            Err(d) => {
+                out.impl_v.push(("C12".into(), "try_into_sendable refused a dispatcher without thread-local systems".into()));
+                AnyDisp::D(d)
+            }
+        }
+    } else {
+        AnyDisp::D(disp)
+    };
     // the model must lay the plan out identically, otherwise its task is about another plan
     if let Some(ml) = built.model_layouts.get(&None) {
         let m = parse_model_layout(ml);
@@ -250,7 +305,7 @@ pub fn eval_case(ops: &[Op], drv: Option<&mut Drv>, pools: &[Pool], rng: &mut Rn
             "paronly" => disp.dispatch_par(&world),
             "seqonly" => disp.dispatch_seq(&world),
             "tlonly" => disp.dispatch_thread_local(&world),
-            _ if via_run_now => RunNow::run_now(&mut disp, &world),
+            _ if via_run_now => disp.run_now(&world),
             _ => disp.dispatch(&world),
         }));
         let log = shared.take_log();
@@ -494,6 +549,7 @@ pub fn run(args: &Args, rep: &mut Report) {
         rep.add("events", o.events);
         rep.add("dispatches", o.traces);
         rep.add("overlapping_window_pairs_observed", o.overlaps);
+        rep.add("cases_dispatched_through_send_dispatcher", o.sendable);
         rep.add("panics_injected", o.panics_injected);
         if o.max_inside > 1 {
             rep.count("cases_with_real_overlap");
